@@ -48,7 +48,7 @@ func (c *DiffCommand) Parse(fs *flag.FlagSet, args []string) error {
 	if c.DestRelPath != "" && hasMeta(c.SrcRelPath) {
 		return errNonEmptyDestRelPathForSrcRelPathWithMeta
 	}
-	if c.From > c.Until {
+	if c.Until != 0 && c.From > c.Until {
 		return errFromIsAfterUntil
 	}
 
